@@ -66,6 +66,21 @@ KINDS = {
     "object-type-list-null": ({"type": ["object", "null"], "properties": {"q": {"type": "integer"}}}, None, [{"q": 1}, None, {}]),
     "array-type-list-null": ({"type": ["array", "null"], "items": {"type": "string"}}, None, [["a"], None, []]),
     "integer-type-list-null": ({"type": ["integer", "null"]}, None, [3, None, 0]),
+    # maps whose VALUES may be null
+    "map-nullable-string": ({"type": "object", "additionalProperties": {"type": "string", "nullable": True}}, None, [{"k": "v"}, {"a": None, "b": "x"}, {}]),
+    "map-nullable-integer": ({"type": "object", "additionalProperties": {"type": "integer", "nullable": True}}, None, [{"k": 1}, {"a": None, "b": 2}, {}]),
+    # reference to ONE named discriminated union whose mapping has two values for one schema (dog and puppy are both DiscDog); the union is a
+    # component of its own, shared by every model of the document, because the generator specialises the variants per union
+    "ref-disc-union": (_ref("PetU"), None, [{"petType": "dog", "bark": True}, {"petType": "puppy", "bark": False}, {"petType": "cat", "lives": 9}]),
+    "arr-ref-disc-union": ({"type": "array", "items": _ref("PetU")}, None,
+                           [[{"petType": "puppy", "bark": False}], [{"petType": "cat", "lives": 9}, {"petType": "dog", "bark": True}], []]),
+}
+DISC_TARGETS = {
+    "DiscDog": {"type": "object", "required": ["petType", "bark"], "properties": {"petType": {"type": "string"}, "bark": {"type": "boolean"}}},
+    "DiscCat": {"type": "object", "required": ["petType", "lives"], "properties": {"petType": {"type": "string"}, "lives": {"type": "integer"}}},
+    "PetU": {"oneOf": [_ref("DiscDog"), _ref("DiscCat")],
+             "discriminator": {"propertyName": "petType", "mapping": {"dog": "#/components/schemas/DiscDog", "puppy": "#/components/schemas/DiscDog",
+                                                                      "cat": "#/components/schemas/DiscCat"}}},
 }
 NAMED_ENUMS = {
     "StateEnum": {"type": "string", "enum": ["inProgress", "done-now", "on hold", "UPPER", "snake_case"], "default": "inProgress"},
@@ -154,6 +169,9 @@ def pack_doc(cases, prefix="M"):
     """one document with one model per case (M0..Mk) plus the shared Tgt; models are independent of one another"""
     schemas = {t: TGT for t in TARGETS}
     schemas.update(NAMED_ENUMS)
+    import copy
+
+    schemas.update(copy.deepcopy(DISC_TARGETS))
     for i, c in enumerate(cases):
         schemas[f"{prefix}{i}"] = model_schema(c)
     return {"openapi": "3.0.3", "info": {"title": "F", "version": "1"}, "paths": {}, "components": {"schemas": schemas}}
